@@ -1026,6 +1026,12 @@ func (fc *FuncCtx) panicAt(st *St, pos string, what string) {
 	case "iff":
 		fc.oblig(st, fmt.Sprintf("panic#%d.iff", fc.npanic), fc.panicCond(st), "panics only if the contract's panic condition holds: "+what, pos, nil)
 	}
+	for _, cl := range fc.Con.OnPanic {
+		if !clauseFor(cl.Props, fc.Prop) {
+			continue
+		}
+		fc.oblig(st, fmt.Sprintf("panic#%d.onpanic.%s", fc.npanic, cl.Name), fc.spec(cl.Expr, fc.newEnv(st)), "on abnormal termination ("+what+"): "+cl.Src, pos, cl.Props)
+	}
 	if fc.onPanic != nil {
 		fc.onPanic(st.clone(), what)
 	}
